@@ -34,6 +34,17 @@ def plan(tier, seed):
 
 def build(desc):
     rng = simgen.mk_rng(desc["seed"], desc["idx"], 1)
+    if desc["idx"] % 11 == 10 and not desc.get("directed"):
+        # line market: every bet is struck at even money, the per-order exposure is the stake on both sides
+        from . import c16
+
+        case, snaps = c16.build_line(desc)
+        for s in case["strategies"]:
+            s["limits"] = _limits(rng)
+            s["max_live_trade_count"] = 1e6
+            s["multi_order_trades"] = True
+            s["disciplined"] = False
+        return case, snaps
     disciplined = desc["idx"] % 2 == 0
     d = dict(desc)
     mp = dict(_sim.PROFILES[desc["profile"]]["market_params"])
@@ -42,7 +53,7 @@ def build(desc):
         "market_params": mp,
         "script_params": {
             "n_orders": (4, 14),
-            "types": ("LIMIT",) * 6 + ("LOC", "MOC"),
+            "types": ("LIMIT",) * 6 + ("LOC", "MOC"), "p_finest": 0.15,
             "p_cancel": 0.2,
             "p_replace": 0.3,
             "p_update": 0.05,
